@@ -139,7 +139,7 @@ static sim::RunResult base_result(World &w) {
     sim::RunResult r;
     r.digest = w.digest.h;
     r.sched_digest = w.sched_digest.h;
-    r.sim_ns = w.now;
+    r.sim_ns = w.now - w.t_origin;
     r.events = w.event_seq;
     r.counters = w.counters;
     return r;
@@ -158,7 +158,7 @@ static sim::RunResult base_result(World &w) {
     }
     r.detail = strf("[%s %s] ", scen.c_str(), rs.plan.mode_str().c_str()) + detail;
     r.nontrivial = true;
-    if (w.verbose) printf("VIOLATION-IN-RUN %s | %s\n", r.sig.c_str(), r.detail.c_str());
+
     sim::finish_run(r);
 }
 [[noreturn]] static void harness_error(const std::string &detail) {
